@@ -1,5 +1,6 @@
 import XmppModel.Prelude.Hex
 import XmppModel.Model.Skeleton
+import XmppModel.Model.ScramLoop
 /-! Driver for C09 (see harness/c09 for the line protocol).
 
     flagged <skeleton>                 -> ok | flagged:<site,…>      the checker's verdict
@@ -34,6 +35,22 @@ def handle (args : List String) : Option String :=
   | ["serve", inp] => do
     let _ ← hexDecode inp
     pure "ok"
+  | ["nego", role, _mechs, chunks, sf] => do
+    -- SASL negotiation against a scripted peer through NewSession / ReceiveSession.  `sf` is
+    -- the server-first message the real SCRAM client is about to parse (hex, `-` if none): the
+    -- only modelled reason for not returning is the dependency's field loop (known finding).
+    if !((role == "c" || role == "s") && !chunks.isEmpty) then none
+    if sf == "-" then pure "ok" else
+    let m ← hexDecode sf
+    pure (if role == "c" && ScramLoop.serverFirst m == .loops then "STALL" else "ok")
+  | ["servex", mode, k, stanzas] => do
+    -- a served session under a local fault (write failure from call k / Session.Close before
+    -- stanza k): Serve still returns once the input has ended
+    let _ ← k.toNat?
+    if (mode == "w" || mode == "c") && !stanzas.isEmpty then pure "ok" else none
+  | ["scen", _name, steps] =>
+    -- a stateful scenario (local calls and peer stanzas interleaved): same prediction
+    if steps.isEmpty then none else some "ok"
   | ["helper", name, _typ, reply] => do
     let _ ← hexDecode name
     let _ ← hexDecode reply
